@@ -304,7 +304,7 @@ def measure_quantum_vector(q0:np.ndarray, index:int|tuple[int], seed:int|None|np
     shape,keep_dim,reduce_dim = _measure_quantum_vector_hf0(num_qubit, index)
     q1 = q0.reshape(shape)
     if len(reduce_dim)>0:
-        prob = np.linalg.norm(q1, axis=reduce_dim).reshape(-1)**2
+        prob = (np.abs(q1)**2).sum(axis=reduce_dim).reshape(-1) #np.linalg.norm accepts at most two axes
     else:
         prob = np.abs(q1.reshape(-1))**2
     ind1 = np_rng.choice(len(prob), p=prob)
